@@ -19,6 +19,11 @@ Oracle (all reads use ``__dict__`` so that judging never loads anything):
   order); attributes NOT loaded on the source keep the target's value (DB value, or the
   local pending value of a held instance); relationships without merge cascade do not
   propagate edits;
+* a source node that has an identity key (identity token included: sources are also loaded
+  under the ``identity_token`` execution option) is merged onto the instance of exactly that key;
+* the composite attribute of a merged node, read by attribute access, agrees with its loaded
+  column attributes (sources with a composite object, with directly written columns, built
+  from column values, or detached after a flush that dropped the cached composite);
 * the source graph is left untouched and unattached;
 * after flushing, merging the same source again returns the same instances, flags no
   modification (``Session.is_modified``), and the following flush emits no
@@ -51,12 +56,12 @@ META = {
     "exhaustive": {"quick": False, "thorough": False},
     "require": ["merges", "attrs_copied_checked", "rel_nodes_checked", "second_merges", "load_false_merges",
                 "load_false_sql_free", "held_instance_cases", "partial_load_sources", "pending_results",
-                "dml_free_second_flushes"],
+                "dml_free_second_flushes", "composite_values_checked", "token_sources", "flushed_sources"],
     "assumptions": ["reading __dict__ of mapped instances shows exactly the loaded attributes"],
 }
 
 OPTSETS = ("plain", "addresses", "keywords", "profile", "bio", "load_only_name", "all")
-USER_EDITS = ("name", "age", "pos", "addr_append_new", "addr_append_pk", "addr_remove_last", "addr_email",
+USER_EDITS = ("name", "age", "pos", "pxpy", "addr_append_new", "addr_append_pk", "addr_remove_last", "addr_email",
               "kw_remove_first", "kw_append_detached", "kw_append_transient", "profile_motto",
               "profile_none", "profile_new", "bio")
 
@@ -158,9 +163,13 @@ def gen_spec(rng):
             spec["touch"] = rng.choice([None, None, "addresses", "keywords", "profile"])
             ne = rng.choice([0, 0, 1, 2, 3])
             spec["edits"] = [rng.choice(USER_EDITS) for _ in range(ne)]
+            # the source went through a flush (expire_on_commit=False) before being detached
+            spec["flushed"] = rng.choice([None, None, None, "pos", "pxpy", "name"])
         else:
             spec["rid"] = rng.choice([1, 2, 3, 101, None])
-            spec["fields"] = sorted(rng.sample(["name", "age", "pos", "bio"], rng.randint(0, 4)))
+            spec["fields"] = sorted(rng.sample(["name", "age", "pos", "bio", "pxpy"], rng.randint(0, 4)))
+            if "pos" in spec["fields"] and "pxpy" in spec["fields"]:
+                spec["fields"].remove("pos")
             spec["addresses"] = rng.choice([None, [], [11], [11, 12], [None], [13, None], [201]])
             spec["keywords"] = rng.choice([None, [], [1], [2, 3], [4, 1], [301]])
             spec["profile"] = rng.choice([None, None, "none", 21, "new", 401])
@@ -178,6 +187,8 @@ def gen_spec(rng):
         spec["rid"] = 31
         spec["src"] = "detached"
         spec["edits"] = rng.sample(["text", "user_name"], rng.randint(0, 2))
+    # identity token of the source's identity key (None = the default)
+    spec["token"] = rng.choice([None, None, "tokA"]) if spec["src"] == "detached" else None
     spec["target"] = rng.choice(["empty", "empty", "held", "held_modified"])
     clean_detached = spec["src"] == "detached" and not spec["edits"]
     spec["load"] = not (clean_detached and rng.random() < 0.5)
@@ -189,13 +200,29 @@ def build_source(R, spec):
     sa, orm, M = R.sa, R.orm, R.rig
     root = spec["root"]
     if spec["src"] == "detached":
-        ss = orm.Session(R.engine)
+        ss = orm.Session(R.engine, expire_on_commit=False, autoflush=False)
+        eo = {"identity_token": spec["token"]} if spec.get("token") else {}
         if root == "user":
-            u = ss.scalars(sa.select(M.User).where(M.User.id == spec["rid"]).options(*R.options(spec["opts"]))).one()
+            u = ss.scalars(sa.select(M.User).where(M.User.id == spec["rid"]).options(*R.options(spec["opts"])),
+                           execution_options=eo).one()
             if spec.get("touch"):
                 getattr(u, spec["touch"])
             kw_copy = ss.get(M.Keyword, 4)
+            fl = spec.get("flushed")
+            if fl:
+                # edit + flush while attached: the object is clean afterwards, keeps its column
+                # values loaded and (after_update) has no composite cached; the source session's
+                # transaction is rolled back after detaching, the database stays as it was
+                if fl == "pos" and "px" in u.__dict__:
+                    u.pos = M.Point(20 + R.n % 5, R.n)
+                elif fl == "pxpy" and "px" in u.__dict__:
+                    u.px, u.py = 30 + R.n % 5, R.n
+                else:
+                    u.name = R.uniq("fl")
+                ss.flush()
+                R.ctx.count("flushed_sources")
             ss.expunge_all()
+            ss.rollback()
             ss.close()
             d = u.__dict__
             for e in spec["edits"]:
@@ -207,6 +234,8 @@ def build_source(R, spec):
                     u.bio = R.uniq("bio")
                 elif e == "pos" and "px" in d and "py" in d:
                     u.pos = M.Point(7, R.n)
+                elif e == "pxpy" and "px" in d and "py" in d:
+                    u.px, u.py = 9, R.n       # column attributes written directly
                 elif e == "addr_append_new" and "addresses" in d:
                     u.addresses.append(M.Address(email=R.uniq("new@")))
                 elif e == "addr_append_pk" and "addresses" in d:
@@ -232,7 +261,7 @@ def build_source(R, spec):
             q = sa.select(M.Address).where(M.Address.id == spec["rid"])
             if spec["with_user"]:
                 q = q.options(orm.joinedload(M.Address.user))
-            a = ss.scalars(q).one()
+            a = ss.scalars(q, execution_options=eo).one()
             other = ss.get(M.User, 3)
             ss.expunge_all()
             ss.close()
@@ -248,7 +277,8 @@ def build_source(R, spec):
                     a.user = other
                     a.user_id = other.id
             return a
-        n = ss.scalars(sa.select(M.Note).where(M.Note.id == spec["rid"]).options(orm.joinedload(M.Note.user))).one()
+        n = ss.scalars(sa.select(M.Note).where(M.Note.id == spec["rid"]).options(orm.joinedload(M.Note.user)),
+                       execution_options=eo).one()
         ss.expunge_all()
         ss.close()
         for e in spec["edits"]:
@@ -265,6 +295,8 @@ def build_source(R, spec):
         for f in spec["fields"]:
             if f == "pos":
                 kw["pos"] = M.Point(3, R.n % 9)
+            elif f == "pxpy":
+                kw["px"], kw["py"] = 5, R.n % 9     # built from column values, no composite object
             elif f == "age":
                 kw["age"] = 40 + R.n % 9
             else:
@@ -315,7 +347,9 @@ def run_case(R, spec, sample=False):
         held_before = None
         rid = spec["rid"]
         if spec["target"] in ("held", "held_modified") and rid is not None:
-            held = sess.get(cls, rid)
+            held = sess.get(cls, rid, identity_token=spec.get("token"))
+            if held is not None and cls is M.User and "px" in held.__dict__:
+                held.pos        # the composite is cached on the instance the session holds
             if held is not None:
                 ctx.count("held_instance_cases")
                 if spec["target"] == "held_modified" and spec["load"]:
@@ -356,6 +390,12 @@ def run_case(R, spec, sample=False):
             vio("result-not-in-session", "merged instance is not attached to the target session")
         if held is not None and m is not held:
             vio("result-is-not-the-held-instance", "session already held %r but merge returned another instance" % (held,))
+        src_key = sa.inspect(src).key
+        if src_key is not None:
+            if src_key[2] is not None:
+                ctx.count("token_sources")
+            if st.key != src_key:
+                vio("merged-instance-identity-differs-from-source", "source identity %s, result identity %s" % (src_key, st.key))
         if st.key is not None and sess.identity_map.get(st.key) is not m:
             vio("result-is-not-identity-map-entry", "identity map entry for %s is not the returned instance" % (st.key,))
         if rid is not None and dbrow and not st.persistent and not (st.pending and False):
@@ -391,6 +431,10 @@ def run_case(R, spec, sample=False):
                 prev = by_key.setdefault((type(s_node), sid), m_node)
                 if prev is not m_node:
                     vio("two-instances-for-one-identity", "%s: identity (%s, %s) merged into two instances" % (path, type(s_node).__name__, sid))
+            sk = sa.inspect(s_node).key
+            if sk is not None and sa.inspect(m_node).key is not None and sa.inspect(m_node).key != sk:
+                vio("merged-instance-identity-differs-from-source", "%s: source identity %s, result identity %s" % (
+                    path, sk, sa.inspect(m_node).key))
             sd, md = s_node.__dict__, m_node.__dict__
             for k in col_keys(sa, s_node):
                 if k in sd:
@@ -399,9 +443,15 @@ def run_case(R, spec, sample=False):
                         vio("loaded-source-attribute-not-set-on-result", "%s.%s loaded on source, absent on result" % (path, k))
                     elif md[k] != sd[k]:
                         vio("loaded-source-attribute-differs-on-result", "%s.%s source=%r result=%r" % (path, k, sd[k], md[k]))
-            if isinstance(s_node, M.User) and "px" in sd and "py" in sd and "pos" in md:
-                if md["pos"] != M.Point(sd["px"], sd["py"]):
-                    vio("composite-stale-after-merge", "%s.pos result=%r source=(%r,%r)" % (path, md["pos"], sd["px"], sd["py"]))
+            if isinstance(m_node, M.User) and "px" in md and "py" in md:
+                # the composite VALUE as the application sees it (attribute access; its
+                # columns are loaded, so this emits no SQL) must agree with the columns
+                ctx.count("composite_values_checked")
+                want = M.Point(md["px"], md["py"])
+                got = m_node.pos
+                if got != want and not (got is None and want == M.Point(None, None)):
+                    vio("composite-value-disagrees-with-columns-after-merge",
+                        "%s.pos is %r while px, py = %r, %r" % (path, got, md["px"], md["py"]))
             for rel in sa.inspect(s_node).mapper.relationships:
                 if rel.key not in sd:
                     continue
